@@ -64,7 +64,9 @@ Proof.
   destruct (Nat.ltb_spec c (length (ths s))) as [Hc|Hc]; cbn [negb orb] in H; [|discriminate].
   destruct (started (T s c)) eqn:Hsc; cbn [orb] in H; [discriminate|].
   destruct (Nat.leb_spec k (refs (T s t))) as [Hk|Hk]; cbn [negb orb] in H; [|discriminate].
-  destruct (lends_from s t) eqn:Hlf; [discriminate|].
+  destruct (lends_from s t && Nat.leb (refs (T s t) - k) 0) eqn:Hlf0; [discriminate|].
+  assert (Hlf : lends_from s t = false \/ k < refs (T s t)).
+  { apply andb_false_iff in Hlf0. destruct Hlf0 as [H0|H0]; [left; exact H0|right; apply Nat.leb_gt in H0; lia]. }
   injection H as <-. unfold with_th. cbn [msgs Wc Rc live ths].
   destruct (J8 s I c Hsc) as (Hc0 & Hcm & Hce).
   set (cp := tick (clk (T s t)) t).
@@ -128,7 +130,6 @@ Proof.
     destruct (Nat.eqb_spec u t) as [->|]; cbn [mustfree excl xp]; [split; [apply Hall|reflexivity]|apply Hall].
   - intros u q m0.
     pose (s2 := {| msgs := msgs s; Wc := Wc s; Rc := Rc s; live := live s; ths := upd (upd (ths s) t xp) c xc |}).
-    assert (Hnolend : forall w, lend (T s w) <> S t) by (intros w; apply lends_from_false; exact Hlf).
     assert (Hclk : forall v, v <> c -> cle (clk (T s v)) (clk (T s2 v))).
     { intros v Hvc. unfold s2. rewrite HT. destruct (Nat.eqb_spec v c) as [->|]; [contradiction|].
       destruct (Nat.eqb_spec v t) as [->|]; [exact Hcc|apply cle_refl]. }
@@ -141,18 +142,22 @@ Proof.
     rewrite HT. destruct (Nat.eqb_spec u c) as [->|Hn1]; cbn [refs clk xc].
     + (* the child: what it has not seen the parent had not seen either; the parent lends nothing *)
       intros Hr' Hq Hn0 Hall1.
-      assert (HK : refs (T s t) + 1 <= val m0).
-      { apply (J7 s I t q m0 ltac:(lia) Hq Hn0). intros m' Hin. destruct (Hall1 m' Hin) as (H1 & _). split.
-        - intros Hhb. apply H1. unfold s2. rewrite HT, Nat.eqb_refl. cbn [clk xc]. eapply hb_mono; [exact Hcc2|exact Hhb].
-        - intros w Hw. exfalso. exact (Hnolend w Hw). }
-      lia.
+      assert (Hunt : forall m', In m' (firstn q (msgs s)) -> ~ hb m' (clk (T s t))).
+      { intros m' Hin Hhb. destruct (Hall1 m' Hin) as (H1 & _). apply H1. unfold s2. rewrite HT, Nat.eqb_refl. cbn [clk xc].
+        eapply hb_mono; [exact Hcc2|exact Hhb]. }
+      destruct Hlf as [Hlf|Hkeep].
+      * assert (HK : refs (T s t) + 1 <= val m0).
+        { apply (J7 s I t q m0 ltac:(lia) Hq Hn0). intros m' Hin. split; [exact (Hunt m' Hin)|].
+          intros w Hw. exfalso. exact (lends_from_false s t w Hlf Hw). }
+        lia.
+      * (* the parent lends and keeps a handle: what the child may still read counts the parent's references (J11) *)
+        pose proof (J11 s I t q m0 ltac:(lia) Hn0 Hunt). lia.
     + destruct (Nat.eqb_spec u t) as [->|Hn2]; cbn [refs clk xp].
       * intros Hr' Hq Hn0 Hall1.
         assert (HK : refs (T s t) + 1 <= val m0).
-        { apply (J7 s I t q m0 ltac:(lia) Hq Hn0). intros m' Hin. destruct (Hall1 m' Hin) as (H1 & _). split.
-          - intros Hhb. apply H1. unfold s2. rewrite HT. destruct (Nat.eqb_spec t c); [congruence|]. rewrite Nat.eqb_refl.
-            cbn [clk xp]. eapply hb_mono; [exact Hcc|exact Hhb].
-          - intros w Hw. exfalso. exact (Hnolend w Hw). }
+        { apply (J7 s I t q m0 ltac:(lia) Hq Hn0).
+          apply (unseen_mono s s2 t q); [reflexivity|apply Hclk; exact Hn1| |exact Hall1].
+          intros w Hw. split; [rewrite Hlend; [exact Hw|rewrite Hw; discriminate]|apply Hclk; exact (Hbc t w Hw)]. }
         lia.
       * intros Hr' Hq Hn0 Hall1. apply (J7 s I u q m0 Hr' Hq Hn0).
         apply (unseen_mono s s2 u q); [reflexivity|apply Hclk; exact Hn1| |exact Hall1].
@@ -164,13 +169,15 @@ Proof.
     destruct (Nat.eqb_spec h t) as [->|]; cbn [mustfree xp]; exact Hm.
   - intros c0 p0. rewrite !HT.
     destruct (Nat.eqb_spec c0 c) as [->|Hc0c]; cbn [lend xc]; [discriminate|].
-    assert (Hnolend : forall w, lend (T s w) <> S t) by (intros w; apply lends_from_false; exact Hlf).
     destruct (Nat.eqb_spec c0 t) as [->|Hc0t]; cbn [lend xp]; intros El;
       destruct (J10 s I _ p0 El) as (Hs0 & Hp0 & Hr0 & Hl0 & He0 & HW0);
-      (destruct (Nat.eqb_spec p0 c) as [->|Hp0c]; [exfalso; lia|]);
-      (destruct (Nat.eqb_spec p0 t) as [->|Hp0t]; [exfalso; exact (Hnolend _ El)|]).
-    + cbn [started clk xp]. repeat split; auto. eapply cle_trans; [exact HW0|exact Hcc].
-    + repeat split; auto.
+      (destruct (Nat.eqb_spec p0 c) as [->|Hp0c]; [exfalso; lia|]).
+    + destruct (Nat.eqb_spec p0 t) as [->|Hp0t]; [congruence|].
+      cbn [started clk xp]. repeat split; auto. eapply cle_trans; [exact HW0|exact Hcc].
+    + destruct (Nat.eqb_spec p0 t) as [->|Hp0t]; [|repeat split; auto].
+      (* the parent lends to c0: it keeps a reference *)
+      destruct Hlf as [Hlf|Hkeep]; [exfalso; exact (lends_from_false s t c0 Hlf El)|].
+      cbn [refs lend excl xp]. repeat split; auto. lia.
   - intros u p m. rewrite HT.
     destruct (Nat.eqb_spec u c) as [->|Hn1]; cbn [refs clk xc].
     + intros Hr' Hn Hun. assert (refs (T s t) <= val m); [|lia].
